@@ -63,13 +63,22 @@ def check(col, prog, tier, profile, fixture=None):
     fk = util.fkey
     adt = util.need_adt(crate, "FFT")
     fields = [f["name"] for f in util.fields_of(adt)]
-    for n in ("w", "reversed", "bufs"):
-        if n not in fields:
-            raise Anchor("FFT has no field %s" % n)
-    W, REV, BUFS = fields.index("w"), fields.index("reversed"), fields.index("bufs")
+    ftys = [str(f["ty"]).replace("alloc::", "std::") for f in util.fields_of(adt)]
+    # the private fields are recognised by their types: the bit-reversal table Vec<usize>, the twiddle table
+    # Vec<Complex<F>>, the scratch buffers [Vec<Complex<F>>; K]
+    rev_c = [i for i, t in enumerate(ftys) if t.startswith("std::vec::Vec<usize")]
+    w_c = [i for i, t in enumerate(ftys) if t.startswith("std::vec::Vec<") and "Complex<" in t]
+    bufs_c = [i for i, t in enumerate(ftys) if t.startswith("[std::vec::Vec<") and "Complex<" in t]
+    if len(rev_c) != 1 or len(w_c) != 1 or len(bufs_c) != 1:
+        raise Anchor("FFT: cannot identify the plan tables and scratch buffers among the fields %s" % list(zip(fields, ftys)))
+    W, REV, BUFS = w_c[0], rev_c[0], bufs_c[0]
     fn = {}
-    for nm in ("new", "update_n", "fft_internal", "fft", "fft_into", "fft_inv", "fft_inv_into", "multiply", "multiply_into"):
+    for nm in ("new", "update_n", "fft", "fft_into", "fft_inv", "fft_inv_into", "multiply", "multiply_into"):
         fn[nm] = util.need_body(crate, "FFT::<F>::%s" % nm)
+    # the private in-place transform is recognised by what it does: the non-public method behind the public transforms
+    # that sizes the plan (calls update_n) — under any name
+    fn["fft_internal"] = util.resolve_role(crate, [fn["fft_into"], fn["fft_inv_into"], fn["multiply_into"]], "fft_internal",
+                                           lambda b_: not util.self_recursive(b_) and any(util.callee_key(t_) == fn["update_n"].key for _bb, t_ in b_.calls()) and b_.arg_count >= 3, "the in-place transform behind fft_into / fft_inv_into / multiply_into", named_ok=lambda _b: True)
     helpers = util.private_helpers(crate, "FFT", exclude=list(fn.values()))
     A = util.analyser(helpers)
     col.rule("P1" + sfx, "plan tables are read only in state SIZED(k); strides divide by the sized k", floor=5)
@@ -155,7 +164,12 @@ def check(col, prog, tier, profile, fixture=None):
     I = A(b)
     okfirst = True
     for st in I.final_states + [s for l in I.backedge_states.values() for s in l]:
-        calls = [e for e in st.event_list() if e.kind == "call"]
+        # calls that do not look at the plan tables (argument checks such as n.is_power_of_two(), bufs[B].len())
+        # may precede the sizing; the first call that touches w / reversed, or any non-pure call, must be update_n(n)
+        def touches_plan(e):
+            return any(isinstance(x, tuple) and x and x[0] == "field" and x[2] in (W, REV) for a in e.args for x in ([a] + list(subterms(a))))
+
+        calls = [e for e in st.event_list() if e.kind == "call" and not (e.extra.get("pure") and not touches_plan(e) and not is_call_to(e, fn["update_n"]))]
         if not calls or not is_call_to(calls[0], fn["update_n"]) or calls[0].args[1] != ("param", 3, I.names.get(3)):
             okfirst = False
     if okfirst:
@@ -296,8 +310,10 @@ def check(col, prog, tier, profile, fixture=None):
                 pls.append(s["place"])
             for pl in pls:
                 for e in pl["p"]:
-                    if e[0] == "field" and e[2] in ("w", "reversed") and ("Vec<" in (e[3] or "")):
+                    if e[0] == "field" and e[1] in (W, REV) and ("Vec<" in (e[3] or "")) and "FFT<" in str(b.locals[pl["l"]]["ty"]) + str((crate.impl_of(b if not b.is_closure else crate.by_key.get(b.parent, b)) or {}).get("self_ty")):
                         root = b if not b.is_closure else crate.by_key.get(b.parent, b)
+                        if root.name not in may_write and pl is rv.get("place") and rv["k"] == "ref" and util.mut_borrow_read_only(b, bb, idx):
+                            continue  # `let Self { w, reversed, bufs } = self`: a &mut binding that is only ever read
                         writers.add(root.name)
                         if root.name not in may_write:
                             col.violation("P4" + sfx, "%s|writes-plan" % fk(b), b.loc(bb, idx), "%s mutably borrows the plan table `%s`; only new/update_n may write the plan" % (b.path, e[2]))
